@@ -20,6 +20,7 @@ World1 == [name |-> "closed-asym-cap2",
               S(2, 3, << <<0, 100>> >>, "pick", 2, 0),
               S(3, 1, << <<9, 9>>, <<11, 12>> >>, "pick", 1, 1),
               S(2, 1, << <<0, 100>> >>, "svc", 0, 5),
+              S(3, 1, << <<0, 100>> >>, "rep", 1, 2),
               PD(2, 1, << <<0, 100>> >>, 3, 1, << <<0, 100>> >>, 1, 4) >>]
 \* open end, no shift end at all
 World2 == [name |-> "open-unbounded",
